@@ -21,6 +21,8 @@ pub enum Kind {
     Big,
     /// zero-sized without a destructor (pointer ranges over such elements are empty whatever their count)
     Uz,
+    /// no drop glue, but a hand-written Clone that is observable (counts its calls)
+    Gen,
 }
 
 /// What to do with a clone of the iterator
@@ -52,6 +54,11 @@ pub enum Op {
     Clone(Use),
     Debug,
     DebugAlt,
+    /// `other.clone_from(&it)` where `other` is a second iterator over fresh elements from which `front` / `back` elements
+    /// (255 = all) have already been taken: `other` must then yield exactly what `it` still holds, `it` is undisturbed
+    CloneInto(u8, u8),
+    /// `it.clone_from(&other)`: `it` must then yield exactly what `other` still holds
+    CloneFromOther(u8, u8),
 }
 
 #[derive(Clone, Copy, Debug, Serialize, Deserialize, PartialEq, Eq, Hash)]
@@ -119,8 +126,46 @@ impl IdOf for Uz {
     }
 }
 
+thread_local! { static GEN_CLONES: std::cell::Cell<u64> = const { std::cell::Cell::new(0) }; }
+/// No drop glue; `Clone` is hand-written and counts its calls
+#[derive(PartialEq)]
+pub struct Gen(u32);
+impl Clone for Gen {
+    fn clone(&self) -> Gen {
+        GEN_CLONES.with(|c| c.set(c.get() + 1));
+        Gen(self.0)
+    }
+}
+impl Debug for Gen {
+    fn fmt(&self, f: &mut std::fmt::Formatter<'_>) -> std::fmt::Result {
+        write!(f, "{}", self.0)
+    }
+}
+impl Elem for Gen {
+    const KIND: &'static str = "no_drop_glue_observable_clone";
+    const NEEDS_DROP: bool = false;
+    fn mk(v: u32) -> Self {
+        Gen(v)
+    }
+    fn get(&self) -> u32 {
+        self.0
+    }
+}
+impl IdOf for Gen {
+    fn id_of(&self) -> Option<u32> {
+        None
+    }
+    fn clone_calls() -> Option<u64> {
+        Some(GEN_CLONES.with(|c| c.get()))
+    }
+}
+
 trait IdOf {
     fn id_of(&self) -> Option<u32>;
+    /// number of `T::clone` calls made so far on this thread, for kinds that can tell
+    fn clone_calls() -> Option<u64> {
+        None
+    }
 }
 impl IdOf for Tracked {
     fn id_of(&self) -> Option<u32> {
@@ -232,9 +277,81 @@ impl<T: Elem + IdOf + Clone + Debug, N: ArrayLength> Run<T, N> {
         self.model.iter().map(|m| m.val).collect()
     }
 
+    /// a second iterator over N fresh elements from which `f` front and `b` back elements (255 = all) have been taken
+    fn other(f: u8, b: u8) -> (GenericArrayIter<T, N>, Vec<u32>) {
+        let n = N::USIZE;
+        let arr: GenericArray<T, N> = GenericArray::generate(|i| T::mk(500_000 + i as u32));
+        let mut vals: VecDeque<u32> = arr.iter().map(|e| e.get()).collect();
+        let mut o = arr.into_iter();
+        let f = if f == 255 { n } else { (f as usize).min(n) };
+        for _ in 0..f {
+            drop(o.next());
+            vals.pop_front();
+        }
+        let b = if b == 255 { n - f } else { (b as usize).min(n - f) };
+        for _ in 0..b {
+            drop(o.next_back());
+            vals.pop_back();
+        }
+        (o, vals.into_iter().collect())
+    }
+
+    fn clone_into(&mut self, f: u8, b: u8) -> Result<(), String> {
+        let (mut o, _) = Self::other(f, b);
+        let want = self.model_vals();
+        o.clone_from(&self.it);
+        if o.len() != want.len() || o.size_hint() != (want.len(), Some(want.len())) {
+            return Err(format!("other.clone_from(&it): len {} but the source has {} remaining", o.len(), want.len()));
+        }
+        let got: Vec<u32> = o.as_slice().iter().map(|e| e.get()).collect();
+        if got != want {
+            return Err(format!("other.clone_from(&it): holds {:?}, the source holds {:?}", got, want));
+        }
+        let mut drained = vec![];
+        let mut flip = false;
+        let mut back = vec![];
+        while o.len() > 0 {
+            flip = !flip;
+            if flip { drained.push(o.next().map(|e| e.get())) } else { back.push(o.next_back().map(|e| e.get())) }
+        }
+        back.reverse();
+        drained.extend(back);
+        if drained != want.iter().map(|v| Some(*v)).collect::<Vec<_>>() || o.next().is_some() || o.next_back().is_some() {
+            return Err(format!("other.clone_from(&it) then drained from both ends: {:?}, expected {:?}", drained, want));
+        }
+        Ok(())
+    }
+
+    fn clone_from_other(&mut self, f: u8, b: u8) -> Result<(), String> {
+        let (o, want) = Self::other(f, b);
+        for m in self.model.iter() {
+            if let Some(id) = m.id {
+                self.released.push(id);
+            }
+        }
+        self.it.clone_from(&o);
+        let got: Vec<u32> = self.it.as_slice().iter().map(|e| e.get()).collect();
+        if got != want {
+            return Err(format!("it.clone_from(&other): holds {:?}, the source holds {:?}", got, want));
+        }
+        let still: Vec<u32> = o.as_slice().iter().map(|e| e.get()).collect();
+        if still != want {
+            return Err("it.clone_from(&other) disturbed the source".into());
+        }
+        self.model = self.it.as_slice().iter().map(|e| M { val: e.get(), id: e.id_of() }).collect();
+        drop(o);
+        self.check_released("clone_from (previous contents of the destination)")
+    }
+
     fn use_clone(&mut self, u: Use) -> Result<(), String> {
+        let calls_before = T::clone_calls();
         let c = self.it.clone();
         let want = self.model_vals();
+        if let (Some(a), Some(b)) = (calls_before, T::clone_calls()) {
+            if b - a != want.len() as u64 {
+                return Err(format!("clone: T::clone was called {} times for {} remaining elements", b - a, want.len()));
+            }
+        }
         if c.len() != want.len() {
             return Err(format!("clone: len {} but original has {} remaining", c.len(), want.len()));
         }
@@ -394,6 +511,8 @@ impl<T: Elem + IdOf + Clone + Debug, N: ArrayLength> Run<T, N> {
                 }
             }
             Op::Clone(u) => self.use_clone(u),
+            Op::CloneInto(f, b) => self.clone_into(f, b),
+            Op::CloneFromOther(f, b) => self.clone_from_other(f, b),
             Op::Debug | Op::DebugAlt => {
                 let s = if op == Op::Debug { format!("{:?}", self.it) } else { format!("{:#?}", self.it) };
                 let got = digits(&s);
@@ -540,6 +659,7 @@ pub fn exec(case: &Case, acc: &mut Acc) -> Result<(), String> {
         Kind::Zst => with_mid!(case.n, N, exec_typed::<TrackedZst, N>(case, acc)),
         Kind::Big => with_mid!(case.n, N, exec_typed::<TrackedBig, N>(case, acc)),
         Kind::Uz => with_mid!(case.n, N, exec_typed::<Uz, N>(case, acc)),
+        Kind::Gen => with_mid!(case.n, N, exec_typed::<Gen, N>(case, acc)),
     }
 }
 
@@ -569,8 +689,8 @@ fn op_strategy() -> impl Strategy<Value = Op> {
         1 => Just(Op::AsSlice),
         2 => (any::<u16>(), 20_000u32..90_000).prop_map(|(s, v)| Op::Write(s, v)),
         3 => use_strategy().prop_map(Op::Clone),
-        1 => Just(Op::Debug),
-        1 => Just(Op::DebugAlt),
+        2 => (any::<bool>(), prop_oneof![3 => 0u8..6, 1 => any::<u8>()], prop_oneof![3 => 0u8..6, 1 => any::<u8>()]).prop_map(|(into, f, b)| if into { Op::CloneInto(f, b) } else { Op::CloneFromOther(f, b) }),
+        2 => any::<bool>().prop_map(|alt| if alt { Op::DebugAlt } else { Op::Debug }),
     ]
 }
 
@@ -587,7 +707,7 @@ fn end_strategy() -> impl Strategy<Value = End> {
 
 fn case_strategy() -> impl Strategy<Value = Case> {
     let lens = harness::lens::MID;
-    (0..lens.len(), prop_oneof![3 => Just(Kind::Tracked), 2 => Just(Kind::U32), 1 => Just(Kind::Zst), 1 => Just(Kind::Big), 1 => Just(Kind::Uz)], prop::collection::vec(op_strategy(), 0..60), end_strategy())
+    (0..lens.len(), prop_oneof![3 => Just(Kind::Tracked), 2 => Just(Kind::U32), 1 => Just(Kind::Zst), 1 => Just(Kind::Big), 1 => Just(Kind::Uz), 1 => Just(Kind::Gen)], prop::collection::vec(op_strategy(), 0..60), end_strategy())
         .prop_map(move |(li, kind, ops, end)| Case { n: lens[li], kind, ops, end })
 }
 
@@ -651,6 +771,24 @@ fn exhaustive_cases(nmax: usize) -> Vec<Case> {
                         o.push(op);
                         out.push(Case { n, kind: Kind::Tracked, ops: o, end: End::Drain(0b0110_1001) });
                     }
+                    // clone_from in both directions against a second iterator in every position
+                    for f2 in 0..=n {
+                        for b2 in 0..=(n - f2) {
+                            for op in [Op::CloneInto(f2 as u8, b2 as u8), Op::CloneFromOther(f2 as u8, b2 as u8)] {
+                                let mut o = prefix.clone();
+                                o.push(op);
+                                out.push(Case { n, kind: Kind::Tracked, ops: o.clone(), end: End::Drain(0b0110_1001) });
+                                if (f2 + b2) % 3 == 0 {
+                                    out.push(Case { n, kind: Kind::Gen, ops: o, end: End::Drain(0b1010_0110) });
+                                }
+                            }
+                        }
+                    }
+                    for u in uses {
+                        let mut o = prefix.clone();
+                        o.push(Op::Clone(u));
+                        out.push(Case { n, kind: Kind::Gen, ops: o, end: End::Drain(0b0110_1001) });
+                    }
                     for end in [End::Drop, End::Fold, End::RFold, End::Count, End::Last, End::Drain(0), End::Drain(u32::MAX)] {
                         out.push(Case { n, kind: Kind::Tracked, ops: prefix.clone(), end });
                         out.push(Case { n, kind: Kind::Zst, ops: prefix.clone(), end });
@@ -698,7 +836,7 @@ pub fn main() {
         Report {
             prop: PROP,
             level: "exploration",
-            rule: "cases = (length, element kind: drop-tracked 24-byte / u32 / drop-tracked 96-byte / zero-sized with a destructor / zero-sized without one, operation sequence, final consuming operation) run against a VecDeque model; \
+            rule: "cases = (length, element kind: drop-tracked 24-byte / u32 / drop-tracked 96-byte / zero-sized with a destructor / zero-sized without one / no drop glue with a call-counting Clone, operation sequence, final consuming operation) run against a VecDeque model; \
                    exhaustive part: every operation with every argument 0..=len+2 from every reachable (front, back) position, reached by a next/next_back route and by an nth/nth_back route; \
                    random part: proptest sequences of 0..60 operations on lengths 0..=12,16,31,32,33,64,100,255,256,1000,1024. \
                    non-trivial = at least two operations and (consumption from both ends, or an nth/nth_back, or a clone); \
@@ -721,14 +859,15 @@ pub fn decode(data: &[u8]) -> Case {
     // the libFuzzer process runs cases on an 8 MiB main-thread stack (with ASan red zones): keep arrays small there
     let lens: Vec<usize> = lens.iter().copied().filter(|n| *n <= 1024).collect();
     let mut n = lens[g(0) as usize % lens.len()];
-    if g(1) % 7 == 4 && n > 256 {
+    if g(1) % 8 == 4 && n > 256 {
         n = 256;
     }
-    let kind = match g(1) % 7 {
+    let kind = match g(1) % 8 {
         0..=2 => Kind::Tracked,
         3 => Kind::U32,
         4 => Kind::Big,
         5 => Kind::Uz,
+        6 => Kind::Gen,
         _ => Kind::Zst,
     };
     let end = match g(2) % 6 {
